@@ -39,6 +39,8 @@ CASES_Q = [
     ("res", "scale_rms", "relin", 0, 0, "blockdiag", "ts1", 1, 1, 1, "np<"),
     ("res", "rms_scale", "cached", 1, 0, "dense", "ts0", 1, 1, 2, "pp<"),
     ("res", "rms_scale", "cached", 0, 0, "blockdiag", "ts0", 1, 1, 2, "pp<"),
+    ("res", "rms_scale", "cached", 0, 0, "isotropic", "ts0", 1, 1, 2, "pp<"),
+    ("state", "rms_scale", "cached", 0, 0, "isotropic", "ts0", 1, 1, 2, "pp<"),
     ("res", "scale_rms", "cached", 0, 0, "dense", "ts0", 2, 2, 1, "pp<"),
     ("res", "scale_rms", "relin", 1, 0, "dense", "ts0", 2, 2, 1, "pp>"),
     ("state", "scale_rms", "cached", 0, 0, "dense", "ts0", 1, 1, 1, "pp<"),
